@@ -514,7 +514,7 @@ func zzRunOps(t *zzT, check bool) {
 //zz:stub (*~/pkg/blockchain.Transaction).Size zzStubTxSize
 //zz:stub (*~/pkg/blockchain.Transaction).Encode zzStubTxEncode
 //zz:quick n=3 K=3 senders=0 prune=1 symsize=0
-//zz:thorough n=3 K=4 senders=1 prune=1 symsize=0 budget=3600s paths=4000000
+//zz:thorough n=3 K=4 senders=0 prune=1 symsize=0 budget=3600s paths=4000000
 func zzH_C14_pool_invariants(t *zzT) {
 	zzRunOps(t, true)
 }
@@ -527,7 +527,7 @@ func zzH_C14_pool_invariants(t *zzT) {
 //zz:stub (*~/pkg/blockchain.Transaction).Size zzStubTxSize
 //zz:stub (*~/pkg/blockchain.Transaction).Encode zzStubTxEncode
 //zz:quick n=3 K=3 senders=0 prune=1 symsize=0
-//zz:thorough n=3 K=4 senders=1 prune=1 symsize=0 budget=3600s paths=4000000
+//zz:thorough n=3 K=4 senders=0 prune=1 symsize=0 budget=3600s paths=4000000
 func zzH_C14_no_operation_blocks(t *zzT) {
 	zzRunOps(t, false)
 }
@@ -540,7 +540,7 @@ func zzH_C14_no_operation_blocks(t *zzT) {
 //
 //zz:opt loop=256 join=1
 //zz:quick sched=1 small=1 budget=200s
-//zz:thorough sched=3 budget=3600s paths=2000000
+//zz:thorough sched=2 small=1 budget=3600s paths=2000000
 //zz:stub (*~/pkg/blockchain.Transaction).Size zzStubTxSize
 //zz:stub (*~/pkg/blockchain.Transaction).Encode zzStubTxEncode
 func zzH_C14_concurrent_reorg(t *zzT) {
@@ -581,5 +581,32 @@ func zzH_C14_concurrent_reorg(t *zzT) {
 	}
 	wg.Wait()
 	zzCheckPool(t, p, txs, zzLblAgree)
+	t.Reach("end")
+}
+
+// zzH_C14_remove_after_replacement: the 4-operation consequence of the stale index left by a
+// replacement (found by zzH_C14_no_operation_blocks in the thorough tier, K=4; pinned here so that
+// the quick tier shows it): tx0 and tx1 of one sender with the same nonce are added (tx1 replaces
+// tx0 in the sender list, but tx0 stays in allTransactions), then both are removed in either order.
+// Every Remove must return and the pool must be empty afterwards. (Nonces are free: with different
+// nonces there is no replacement and the sequence is clean — that is the reachable "end".)
+//
+//zz:opt loop=256 sched=0
+//zz:stub (*~/pkg/blockchain.Transaction).Size zzStubTxSize
+//zz:stub (*~/pkg/blockchain.Transaction).Encode zzStubTxEncode
+func zzH_C14_remove_after_replacement(t *zzT) {
+	zzCov = nil
+	p, abi := zzNewPool(t, 2, 2)
+	txs := zzNewTxs(t, 2, 0, 0)
+	abi.op = 0
+	a0 := p.Add(txs[0])
+	abi.op = 1
+	a1 := p.Add(txs[1])
+	t.Assume(t.And(a0, a1)) // both accepted: side by side, or the second replaced the first
+	first := t.Choice("remove.first", 2)
+	p.Remove(txs[first].ID)
+	p.Remove(txs[1-first].ID)
+	t.Assert(len(p.allTransactions) == 0 && len(p.perAccount) == 0 && len(p.feePriorityQueue) == 0,
+		"after removing every added transaction the pool is empty")
 	t.Reach("end")
 }
